@@ -147,6 +147,43 @@ claim("C13", "other",
       "static analysis: CFG reachability with flag propagation + bounded unrolling by partial evaluation",
       "DESIGN.md §5 C13")
 
+claim("C10", "other",
+      "Every integrate() (fixed, RK45, DOP853, symplectic; generic and Hamiltonian) is interpreted with its kernels "
+      "abstracted: returned times must equal the requested grid unsigned for both directions, and _propagate_dynsys "
+      "(interpreted for all three methods and both directions) multiplies by the direction exactly once on the grid "
+      "linspace(t0,tf,steps); the direction wrapper and every reversal site must negate the whole state (rule C03.c); a "
+      "strictly decreasing grid fed to each integrate() under a representative ordering must raise before any forward-only "
+      "kernel runs, while direction-agnostic kernels are unrolled on a descending grid against the signed-step reference; "
+      "plain drivers are unrolled under accept/reject tapes against the reference stepping and dense-sampling protocol.",
+      "Trusted: harness stubs (fresh symbols for step/RHS/dense results), reference protocols in hv/rules/drv.py, frozen "
+      "classification forward-only = {RK45, DOP853}. Not decided: round-trip error magnitudes.",
+      "static analysis: partial evaluation of integrate()/propagate + bounded unrolling of drivers over tapes",
+      "DESIGN.md §5 C10")
+
+claim("C11", "other",
+      "Crossing predicates are evaluated exhaustively over the sign abstraction (2 x 27 cases, two representatives per "
+      "open region); each of the seven event drivers is unrolled under all event-sign tapes {-,0,+}^k x 3 directions x "
+      "accept/reject tapes and its abstract-call trace compared segment-wise with the reference protocol; the five "
+      "bisection refiners are unrolled for both signs of h against the reference bisection (t_hit exact, y_hit = this "
+      "step's dense output at x_hit); integrate() wrappers (dispatch, direction/tolerance wiring, result shapes) and the "
+      "plane-crossing wrapper (event function table, hit window) are interpreted on symbolic data.",
+      "Trusted: harness stubs, reference protocols, dense evaluators proved in C02.b/C15.c. Not decided: that the crossing "
+      "is the first one when two lie inside one step; accuracy against the exact flow.",
+      "static analysis: order-abstract evaluation + bounded unrolling of drivers/refiners over tapes (partial evaluation)",
+      "DESIGN.md §5 C11")
+
+claim("C17", "other",
+      "A local type flow infers what every _build_rhs_impl closure makes numba freeze (typed List/list/dict/object are "
+      "violations); _hamiltonian_rhs, the system's dH_dQ/dH_dP and rhs_params are extracted as terms over uninterpreted "
+      "jac_H evaluations; the three step-kernel pairs and the dense-cache pair are compared term by term with the real "
+      "tables; six driver pairs and the DOP853 refiner pair are run under identical tapes and must produce identical "
+      "abstract-call traces and results; integrate() must take the _ham kernel with the system's (jac_H, clmo_H, n_dof) on "
+      "both the event and the non-event branch.",
+      "Trusted: numba freezing rules (documentation), harness stubs. Not decided: bit-for-bit equality of floating-point "
+      "trajectories (implied up to rounding).",
+      "static analysis: closure-capture kind inference + twin comparison in term and trace mode (partial evaluation)",
+      "DESIGN.md §5 C17")
+
 PENDING = ["C02", "C03", "C04", "C05", "C06", "C07", "C08", "C09", "C10", "C11", "C12", "C13", "C14", "C15",
            "C16", "C17", "C18", "C19", "C20"]
 
